@@ -2,7 +2,10 @@
 
 package proto
 
-import "bytes"
+import (
+	"bytes"
+	"time"
+)
 
 // VerifC06LowCardinalityRaw: the raw LowCardinality column over a UInt8 dictionary.
 func VerifC06LowCardinalityRaw() {
@@ -179,4 +182,57 @@ func VerifC16LowCardinalityWidths() {
 	}
 	check()
 	verifObserveU64("rows", uint64(len(model)))
+}
+
+// VerifC06HostileTypeName: the type name of a column is input like any other byte: a block whose
+// type name is an arbitrary short string, decoded into each kind of typed target that derives its
+// parameters from that name (Infer runs before the type check), is rejected or accepted - it never
+// panics.
+func VerifC06HostileTypeName() {
+	version := 54460
+	name := verifStr("typename", verifIntRange("len", 0, verifParam("maxlen", 4)))
+	for i := 0; i < len(name); i++ {
+		verifAssume(vAnd(name[i] >= 0x20, name[i] < 0x7f))
+	}
+	var target ColResult
+	switch verifChoice("target", 12) {
+	case 0:
+		target = new(ColDateTime)
+	case 1:
+		target = new(ColDateTime64)
+	case 2:
+		target = new(ColEnum)
+	case 3:
+		target = new(ColFixedStr)
+	case 4:
+		target = new(ColInterval)
+	case 5:
+		target = new(ColDateTime).Array()
+	case 6:
+		target = NewColNullable[string](new(ColEnum))
+	case 7:
+		target = NewMap[string, time.Time](new(ColStr), new(ColDateTime))
+	case 8:
+		target = new(ColStr).LowCardinality()
+	case 9:
+		target = new(ColAuto)
+	case 10:
+		target = ColTuple{new(ColDateTime64), new(ColStr)}
+	case 11:
+		target = NewArray[[]time.Time](new(ColDateTime64).Array())
+	}
+	var w refBuf
+	w.vint(1)
+	w.vint(0)
+	w.str("a")
+	w.str(name)
+	w.u8(0)
+	var blk Block
+	err := blk.DecodeRawBlock(NewReader(bytes.NewReader(w.b)), version, Results{{Name: "a", Data: target}})
+	if err != nil {
+		verifNote("rejected")
+	} else {
+		verifNote("accepted")
+	}
+	verifObserveU64("len", uint64(len(name)))
 }
